@@ -158,6 +158,7 @@ Definition guarded_iadd (total v x : val) : M val :=
   a <- view total ;; b <- view v ;;
   match a, b with
   | PVArr _ xs, PVArr _ ys => if length xs =? length ys then iop Z.add total x else raise ValueError
+  | PVArr _ _, PVOther => raise OtherError          (* val.shape: AttributeError *)
   | _, _ => iop Z.add total x
   end.
 Definition csum_step (total v : val) : M val :=
@@ -190,8 +191,16 @@ Definition cwa_step (c : cfg) (total : val) (vw : val * val) : M val :=
              if length xs =? length ys
              then p <- binop (mulop c) v (snd vw) ;; iop Z.add total p
              else raise ValueError
+         | PVArr _ _, PVOther => raise OtherError
          | _, _ => p <- binop (mulop c) v (snd vw) ;; iop Z.add total p
          end
+  end.
+(* total / s : number / 0 raises ZeroDivisionError, arrays do not *)
+Definition py_div (c : cfg) (total s : val) : M val :=
+  x <- view total ;; y <- view s ;;
+  match x, y with
+  | PVNum _, PVNum 0 => raise OtherError
+  | _, _ => binop (divop c) total s
   end.
 Definition py_sum_not_none (ws : list val) : M val :=
   foldM (fun acc w => match w with PNone => ret acc | _ => binop Z.add acc w end) ws (PNum 0).
@@ -208,13 +217,13 @@ Definition apply_post (c : cfg) (q : val) : M val :=
 Definition conforming_weighted_average (c : cfg) (values weights : list val) : M val :=
   total <- foldM (cwa_step c) (zip values weights) (PNum 0) ;;
   s <- py_sum_not_none weights ;;
-  q <- binop (divop c) total s ;;
+  q <- py_div c total s ;;
   apply_post c q.
 Definition conforming_weighted_average_mutant (c : cfg) (values weights : list val) : M val :=
   match values, weights with
   | v0 :: vr, _ :: wr =>
       total <- foldM (cwa_step c) (zip vr wr) v0 ;;
-      s <- py_sum_not_none weights ;; q <- binop (divop c) total s ;; apply_post c q
+      s <- py_sum_not_none weights ;; q <- py_div c total s ;; apply_post c q
   | _, _ => ret (PNum 0)
   end.
 
